@@ -119,6 +119,98 @@ class C04(Profile):
         k["n_ops"] = rng.randint(15, 50)
 
 
+class C05(Profile):
+    """aliasing: mutate through one path, read through all others."""
+    prop = "C05"
+    name = "C05"
+    weights = {"create_block": 2, "create_group": 4, "create_array": 5, "create_tag": 3, "create_mtag": 3,
+               "create_feature": 3, "create_source": 4, "create_section": 3, "create_property": 2,
+               "append_dim": 4, "link_dim": 5, "set_dim": 5, "link_append": 12, "link_remove": 3,
+               "set_metadata": 5, "set_role": 4, "set_attr": 14, "observe": 4, "restart": 2,
+               "data_write": 5}
+    owned = ("alias_view", "lookup_failed", "lookup_wrong_entity")
+    reopen_introspect = False
+    never_off = ("restart", "link_append", "set_attr")
+
+    def owns(self, oracle, site, cls):
+        if oracle.startswith("state_"):
+            # dimension links: ticks/unit/label follow the target
+            return "dims" in cls
+        if oracle == "missing_refusal":
+            return site.startswith(("link_append", "set_role", "refused_link"))
+        return Profile.owns(self, oracle, site, cls)
+
+    def tune_knobs(self, k, rng):
+        k["names"] = list(P.NAMES_TREE) + rng.sample(P.NAMES_PLAIN, 4)
+        k["walk_every"] = P.pick(rng, [1, 2])
+        k["max_blocks"] = rng.randint(1, 3)
+        k["dtypes"] = ["int16", "float64", "str", "uint8"]
+        k["max_rank"] = rng.randint(1, 3)
+        k["min_extent"] = 1
+        k["max_extent"] = 3
+        k["n_ops"] = rng.randint(15, 45)
+        k["vias"] = [0, 1, 2, 3, 4, 4, 5, 5, 5, 6, 7]
+
+    def after_op(self, run, op, res):
+        from .ops_struct import observe_all_paths
+        if isinstance(res, dict) and res.get("outcome") == "ok" and res.get("target") is not None \
+                and op["op"] in ("set_attr", "link_append", "link_remove", "set_metadata", "set_role",
+                                 "set_dim", "data_write", "create_property", "prop_values"):
+            observe_all_paths(run, res["target"], op["op"])
+
+
+class C01(Profile):
+    prop = "C01"
+    name = "C01"
+    weights = {"create_block": 1.5, "create_array": 6, "data_write": 5, "data_assign": 8, "data_append": 8,
+               "data_resize": 5, "data_read": 4, "restart": 4}
+    reopen_introspect = False
+    never_off = ("restart", "create_array", "data_read")
+
+    def owns(self, oracle, site, cls):
+        if oracle == "array_read":
+            return True
+        if oracle == "unexpected_error":
+            return site.startswith(("data_", "create_array"))
+        if oracle.startswith(("state_", "reopen_model")):
+            return any(x in cls for x in ("data", "shape", "dtype"))
+        return oracle in ("reopen_failed", "create_result")
+
+    def tune_knobs(self, k, rng):
+        k["names"] = ["a", "b", "c", "d", "e", "f", "g", "h"]
+        k["dup_rate"] = 0.0
+        k["max_blocks"] = rng.randint(1, 2)
+        k["max_per"] = rng.randint(1, 3)
+        k["max_rank"] = rng.randint(1, 4)
+        k["max_extent"] = rng.randint(1, 6)
+        k["min_extent"] = 0 if rng.random() < 0.4 else 1
+        k["dtypes"] = rng.sample(P.ALL_DTYPES, rng.randint(1, 5))
+        k["extreme_rate"] = P.pick(rng, [0.3, 0.8, 1.0])
+        k["walk_every"] = P.pick(rng, [1, 2, 4])
+        k["n_ops"] = rng.randint(8, 40)
+        k["vias"] = [0, 1, 2, 4, 4]
+
+    def after_op(self, run, op, res):
+        from .ops_data import check_array, check_all_arrays, stored_compression
+        if not isinstance(res, dict) or res.get("outcome") != "ok":
+            return
+        kind = op["op"]
+        if kind in ("data_write", "data_assign", "data_append", "data_resize", "create_array"):
+            m = res.get("target")
+            if m is not None and m.kind == "array":
+                check_array(run, m, run.R(m, 4), kind)
+                if kind == "create_array":
+                    c = stored_compression(run, m)
+                    run.stats["stored_compression:%s" % c] += 1
+        elif kind == "restart":
+            check_all_arrays(run, "after_restart")
+            run.stats["reopen_array_checks"] += 1
+
+    def at_end(self, run):
+        from .ops_data import check_all_arrays
+        check_all_arrays(run, "end")
+
+
 PROFILES = {}
 
 
@@ -135,3 +227,5 @@ register(C02())
 register(C10())
 register(C03())
 register(C04())
+register(C05())
+register(C01())
